@@ -44,6 +44,8 @@ KINDS = {
     "dword0":  (".dword", 4, True, []),
     "ascii":   (".ascii \"abc\"", 3, False, []),
     "asciz":   (".asciz \"ab\"", 3, False, []),
+    "asczl":   (".asciz \"ab\"<zlate>", 4, False, []),      # 'zlate = 1' is defined at the very end of its file: pending when met
+    "asclat":  (".ascii <zlate>\"abc\"<zlate>", 5, False, []),
     "blkb":    (".blkb {NSYM}", "N", False, ["N"]),
     "blkw":    (".blkw {NSYM}", "2N", False, ["N"]),
     "even":    (".even", "even", False, []),
@@ -128,6 +130,8 @@ def build_file(kinds, fileno, nplace, kplace):
         (pre_defs if nplace == "before" else post_defs).append(f"{nsym} = {{N}}")
     if uses_k:
         (pre_defs if kplace == "before" else post_defs).append(f"{ksym} = {{K}}")
+    if any("zlate" in KINDS[k][0] for k in kinds):
+        post_defs.append("zlate = 1")
     lines += pre_defs
     for i, k in enumerate(kinds):
         t = KINDS[k][0].replace("{NSYM}", nsym).replace("{KSYM}", ksym)
